@@ -174,6 +174,47 @@ def text_of(spec, d):
     return d.get("text")
 
 
+def gen_dyadic_spec(rng):
+    """a timeline all of whose numbers are dyadic rationals of moderate size and whose scale is the identity (numeric times on [0, 1024], the axis
+    1024 units long): the floating-point run then makes exactly the decisions exact arithmetic makes (sums and products of such numbers are
+    exact; a quotient is rounded only when it is not representable, and then it is not on a rounding tie), so the WHOLE pipeline can be compared
+    for equality with the composed model `Pipeline.drawn`"""
+    n = rng.choice([1, 2, 3, 5, 8, 12, 18, 25])
+    style = rng.choice(["spread", "cluster", "ties"])
+    if style == "spread":
+        ts = [rng.randint(0, 8192) / 8 for _ in range(n)]
+    elif style == "cluster":
+        c = rng.randint(100, 900)
+        ts = [c + rng.randint(-160, 160) / 8 if rng.random() < 0.8 else rng.randint(0, 8192) / 8 for _ in range(n)]
+    else:
+        base = [rng.randint(0, 1024) for _ in range(max(1, n // 3))]
+        ts = [rng.choice(base) for _ in range(n)]
+    data = [{"time": float(t), "width": rng.choice([50, 30, 20, 80, 12.5, 5, 7.25, rng.randint(5, 120)])} for t in ts]
+    direction = rng.choice(["up", "down", "left", "right"])
+    o = {"direction": direction, "domain": [0, 1024], "margin": {"left": 20, "right": 20, "top": 20, "bottom": 20},
+         "initialWidth": 1064, "initialHeight": 1064, "layerGap": rng.choice([60, 1, 10, 25.5, 6, 3])}
+    if rng.random() < 0.5:
+        o["labelPadding"] = {"left": rng.choice([2, 0, 5, 8]), "right": rng.choice([2, 0, 4.5, 8]), "top": rng.choice([3, 0, 1, 9]), "bottom": rng.choice([2, 0, 6, 9])}
+    lab = {}
+    if rng.random() < 0.6:
+        lab["nodeSpacing"] = rng.choice([3, 3, 4, 10, 3.5, 0, 1, 2.5])
+    if rng.random() < 0.7:
+        lab["maxPos"] = rng.choice([None, 360, 260, 200, 120, 60, 960, 1024])
+    if rng.random() < 0.2:
+        lab["minPos"] = rng.choice([0, None, 10, -20])
+    if rng.random() < 0.5:
+        lab["algorithm"] = rng.choice(["overlap", "simple", "none"])
+    if rng.random() < 0.4:
+        lab["density"] = rng.choice([0.75, 0.5, 1])
+    if rng.random() < 0.3:
+        lab["stubWidth"] = rng.choice([1, 2, 0])
+    if rng.random() < 0.2:
+        lab["lineSpacing"] = rng.choice([2, 14, 0, 5])
+    o["labella"] = lab
+    o["showTicks"] = False
+    return {"kind": "number", "data": data, "options": o, "opt_mode": "given", "dyadic": True}
+
+
 def build_args(spec):
     """fresh (data dicts, options dict) for one construction — the constructors mutate both"""
     from labella.scale import LinearScale
